@@ -329,6 +329,19 @@ def sdk_encode(a, v):
         return ("err", type(e).__name__)
 
 
+def val_from_wire(e):
+    """parsed model value -> python value (bool | int | bytes | list)"""
+    if isinstance(e, list):
+        return [val_from_wire(x) for x in e]
+    if hasattr(e, "name"):
+        if e.name in ("true", "false"):
+            return e.name == "true"
+        raise ValueError("unexpected atom %r in a value" % (e,))
+    if isinstance(e, str):
+        return e.encode("latin-1")
+    return e
+
+
 def norm_value(v):
     """bytes -> list of ints (the meaning of VBytes)"""
     if isinstance(v, (bytes, bytearray)):
